@@ -46,7 +46,7 @@ def setup():
 class Gen:
     def __init__(self, eng, n=40):
         self.eng = eng
-        self.ch = [new_int(eng, "ch%d" % i, 0, 15) for i in range(n)]
+        self.ch = [new_int(eng, "ch%d" % i, 0, 31) for i in range(n)]
         self.reset()
 
     def reset(self):
@@ -133,6 +133,23 @@ def block(g, depth, kinds):
             return ["```{rubric} " + m + " title", "```"], [(m, 0, "rubric", None)]
         arg = {"container": " cls", "topic": " Topic title", "compound": ""}[name]
         return ["```{%s}%s" % (name, arg), m + " body", "```"], [(m, 0, name, None), (m, 1, "paragraph", None)]
+    if kind in ("dir-title-role", "dir-topic-title-role"):
+        # a directive title is inline text handed back to the renderer (state.inline_text): its warnings belong to the directive line
+        # (colon fence: a backtick fence cannot have a backtick in its info string)
+        m1, m2 = g.marker(), g.marker()
+        name = "admonition" if kind == "dir-title-role" else "topic"
+        return [":::{%s} Title {nosuchrole%s}`x`" % (name, m1), m2 + " body", ":::"], [(m1, 0, "warning:role_unknown", None), (m2, 1, "paragraph", None)]
+    if kind == "dir-epigraph":
+        # docutils' block-quote directives go through MockState.block_quote: quote, body and attribution each have their own line
+        m1, m2 = g.marker(), g.marker()
+        nb = g.choose(2)
+        name = ["epigraph", "pull-quote", "highlights"][g.choose(3)]
+        return (["```{%s}" % name] + [""] * nb + [m1 + " body", "", "-- Attr {nosuchrole%s}`x`" % m2, "```"],
+                [(m1, 0, "block_quote", None), (m1, 1 + nb, "paragraph", None), (m2, 3 + nb, "attribution", None), (m2, 3 + nb, "warning:role_unknown", None)])
+    if kind == "quote-attribution":
+        # the attribution of a block quote is inline text of the attribute line; its warning belongs to that line or to the quote's first line
+        m1, m2 = g.marker(), g.marker()
+        return ['{attribution="Someone {nosuchrole%s}`x`"}' % m1, "> " + m2 + " quoted"], [(m1, 1, "warning:role_unknown", "or-previous-line"), (m2, 1, "paragraph", None), (m2, 1, "block_quote", None)]
     if kind == "container":
         # ':::name' without braces is a plain container (div): its body is a nested render of the fence content
         bl, bm = blocks(g, 0, 2, ["para", "quote", "unknown-role"])
@@ -213,7 +230,7 @@ def find_nodes(document):
             continue
         if kind in ("paragraph", "literal_block", "rubric", "title"):
             out.append((kind, _marker_in(plain_text(n)), n))
-        elif kind in ("block_quote", "bullet_list", "list_item", "note", "section", "container", "topic", "compound"):
+        elif kind in ("block_quote", "bullet_list", "list_item", "note", "section", "container", "topic", "compound", "attribution"):
             out.append((kind, _marker_in(plain_text(n)), n))
         elif kind == "target":
             out.append((kind, (n.get("names") or n.get("ids") or [""])[0], n))
@@ -251,7 +268,8 @@ def check_lines(eng, ctx, marks, S, source="src.md"):
             label = "line:merged-first-line"
         if extra == "substitution":
             label = "line:substitution"
-        eng.require(line == S + 1 + rel, label, "%s %s: line %s expected S+1+%d" % (kind, marker, _fmt(eng, line, S), rel), stop=(label == "line"))  # listed findings (merged first line, substitution) do not end the path
+        ok = (line == S + 1 + rel) | (line == S + rel) if extra == "or-previous-line" else line == S + 1 + rel
+        eng.require(ok, label, "%s %s: line %s expected S+1+%d" % (kind, marker, _fmt(eng, line, S), rel), stop=(label == "line"))  # listed findings (merged first line, substitution) do not end the path
         src = n.get("source") if kind.startswith("warning") else n.source
         eng.require(src == source, "source", "%s %s: source %r" % (kind, marker, src))
 
@@ -283,7 +301,7 @@ def make_layout(eng, depth, nblocks, kinds, inner=None, single=False):
             lines = lines[:-1]
         text = "\n".join(lines)
         state["text"], state["marks"] = text, marks
-        ctx = CR.new_context(config={"enable_extensions": ["colon_fence"]})
+        ctx = CR.new_context(config={"enable_extensions": ["colon_fence", "attrs_block"]})
         try:
             run_layout(ctx, text, S)
         except Exception as exc:  # noqa
@@ -486,7 +504,117 @@ def make_sphinx_include(eng):
     return body
 
 
-FLAT_EXTRA = ["container", "code-unknown-lang", "dir-container", "dir-topic", "dir-compound", "dir-rubric"]
+# ------------------------------------------------------------ Sphinx front end: figure-md (a MyST directive that nested-parses its body)
+
+
+def figure_md_doc(wrapper):
+    """index.md with figure-md directives in every fence / option-block / blank-line layout; returns (lines, {role name: 1-based line})."""
+    lines, want = ["# Title", ""], {}
+    n = 0
+    pre = {"none": "", "quote": "> ", "list": "  ", "note": ""}[wrapper]
+    if wrapper == "list":
+        lines += ["- item", ""]
+    if wrapper == "note":
+        lines += ["````{note}"]
+    for fence in ("```", ":::"):
+        for opt in (0, 1, 2):
+            for blank in (0, 1):
+                n += 1
+                blk = [fence + "{figure-md} fig%d" % n]
+                if opt == 1:
+                    blk += [":class: c%d" % n]
+                elif opt == 2:
+                    blk += ["---", "class: c%d" % n, "---"]
+                blk += [""] * blank
+                blk += ["![alt %d](img.png)" % n, "", "Caption {nosuchrolefig%d}`x`" % n, fence, ""]
+                for j, l_ in enumerate(blk):
+                    if "nosuchrolefig" in l_:
+                        want["nosuchrolefig%d" % n] = len(lines) + j + 1
+                lines += [(pre + l_).rstrip() if l_ or wrapper == "quote" else l_ for l_ in blk]
+    if wrapper == "note":
+        lines += ["````", ""]
+    return lines, want
+
+
+def run_sphinx_figure(wrapper, real=False):
+    import io, sys
+    from sphinx.application import Sphinx
+    from sphinx.util.docutils import docutils_namespace, patch_docutils
+
+    saved = {}
+    if not real:
+        for name, mod in SPXI.items():
+            saved[name] = sys.modules.get(name)
+            sys.modules[name] = mod
+    try:
+        with tempfile.TemporaryDirectory(prefix="symx_c04_") as d:
+            open(os.path.join(d, "conf.py"), "w").write("extensions = ['myst_parser']\nmyst_enable_extensions = ['colon_fence']\nexclude_patterns = ['_build']\n")
+            open(os.path.join(d, "img.png"), "wb").write(b"\x89PNG\r\n\x1a\n")
+            lines, want = figure_md_doc(wrapper)
+            open(os.path.join(d, "index.md"), "w").write("\n".join(lines))
+            warn = io.StringIO()
+            with docutils_namespace(), patch_docutils(d):
+                app = Sphinx(d, d, os.path.join(d, "_build"), os.path.join(d, "_build", ".doctrees"), "dummy", status=None, warning=warn, freshenv=True, parallel=0)
+                app.build()
+            return warn.getvalue().replace(d + os.sep, ""), want
+    finally:
+        for name, mod in saved.items():
+            if mod is None:
+                sys.modules.pop(name, None)
+            else:
+                sys.modules[name] = mod
+
+
+def check_sphinx_figure(log, want):
+    import re
+
+    loc = {}
+    for m_ in re.finditer(r"^(?:\x1b\[\d+m)?([^\s:]+):(\d+): WARNING: .*?\"(nosuchrole\w+)\"", log, re.M):
+        loc[m_.group(3)] = (m_.group(1), int(m_.group(2)))
+    for role, line in sorted(want.items()):
+        if role not in loc:
+            return ("warning-missing", "no warning for the unknown role %s: %r" % (role, log[:300]))
+        if not loc[role][0].startswith("index.md") or loc[role][1] != line:
+            return ("line:figure-md", "the warning for %s on line %d of index.md is reported at %s:%d" % (role, line, loc[role][0], loc[role][1]))
+    return None
+
+
+def make_sphinx_figure(eng):
+    setup()
+    if not SPXI:
+        from symx.instrument import load_instrumented
+
+        SPXI.update(load_instrumented(["myst_parser.mdit_to_docutils.sphinx_", "myst_parser.parsers.sphinx_"], using=CR.R))
+        SPXI["myst_parser.warnings_"] = CR.R["myst_parser.warnings_"]
+    if "myst_parser.sphinx_ext.directives" not in SPXI:
+        from symx.instrument import load_instrumented
+
+        # (the directive tests isinstance(self.state, MockState): it has to be loaded against the instrumented stand-ins too)
+        SPXI.update(load_instrumented(["myst_parser.sphinx_ext.directives", "myst_parser.sphinx_ext.main"], using=dict(CR.R, **SPXI)))
+    c = CR.Choice(eng)
+    state = {}
+    eng.witness_fn = lambda m: dict(state)
+    WR = ["none", "quote", "list", "note"]
+
+    def body():
+        c.reset()
+        w = WR[c.choose(len(WR))]
+        state.update(sphinx_figure=w)
+        try:
+            log, want = run_sphinx_figure(w)
+        except Exception as exc:  # noqa
+            eng.fail("render-raises", "%s: %s" % (type(exc).__name__, str(exc)[:300]))
+        err = check_sphinx_figure(log, want)
+        if err:
+            eng.fail(*err)
+        eng.passed(len(want))
+        eng.note("directive")
+        return "ok"
+
+    return body
+
+
+FLAT_EXTRA = ["container", "code-unknown-lang", "dir-container", "dir-topic", "dir-compound", "dir-rubric", "dir-title-role", "dir-topic-title-role", "quote-attribution", "dir-epigraph"]
 ALL = ["para", "quote", "list", "code", "target", "heading", "unknown-directive", "unknown-role", "directive"]
 
 
@@ -505,6 +633,8 @@ def families(tier, seed):
         F.append(Family("layout/D3", make_layout, "directive nesting depth 3; symbolic offset S", args=dict(depth=3, nblocks=1, kinds=["directive"], inner=["para", "directive"]), nontrivial="directive", max_forks=600000, required=False))
     F.append(Family("sphinx-include", make_sphinx_include, "real Sphinx builds: an unknown role inside an included file (same / sub directory) and unknown roles before / after the include in the including file: "
                     "the logged location names the file the warning belongs to (and the right line in the including file)", nontrivial="directive", max_forks=1000))
+    F.append(Family("sphinx-figure-md", make_sphinx_figure, "real Sphinx builds: 12 figure-md directives (backtick/colon fence x no/colon/YAML option block x blank line before the body), at top level and inside a quote, a list item and a {note}: "
+                    "the unknown role in each caption is logged at its own line", nontrivial="directive", max_forks=1000))
     F.append(Family("include", make_include, "include of a file with 1-2 blocks whose head is skipped by :start-line: n, :start-after: marker or a negative :start-line:, at symbolic offset S", nontrivial="directive", max_forks=300000))
     F.append(Family("toplevel", make_toplevel, "top-level render of 2 blocks (depth <= 1) tokenised by the real markdown-it", args=dict(kinds=["para", "list", "heading", "directive", "unknown-role", "dup-refdef", "substitution"] if q else ALL + ["dup-refdef", "substitution"]),
                     nontrivial="directive", max_forks=300000))
@@ -518,6 +648,13 @@ def replay(label, witness):
         except Exception as e:  # noqa
             return ("C04/exception:%s" % type(e).__name__, "%r" % (e,))
         err = check_sphinx_include(log, inc, after_line)
+        return ("C04/sphinx:%s" % err[0], err[1]) if err else None
+    if "sphinx_figure" in witness:
+        try:
+            log, want = run_sphinx_figure(witness["sphinx_figure"], real=True)
+        except Exception as e:  # noqa
+            return ("C04/exception:%s" % type(e).__name__, "%r" % (e,))
+        err = check_sphinx_figure(log, want)
         return ("C04/sphinx:%s" % err[0], err[1]) if err else None
     S = witness["S"]
     if "inc" in witness:
@@ -566,7 +703,7 @@ def replay(label, witness):
             return problems[0] if problems else None
         return None
     text, marks = witness["text"], witness["marks"]
-    ctx = CR.new_context(real=True, config={"enable_extensions": ["colon_fence", "substitution"], "substitutions": witness.get("subs") or {}})
+    ctx = CR.new_context(real=True, config={"enable_extensions": ["colon_fence", "substitution", "attrs_block"], "substitutions": witness.get("subs") or {}})
     try:
         if witness.get("toplevel"):
             ctx.renderer._render_tokens(ctx.md.parse(text + witness.get("eof", "\n"), ctx.renderer.md_env))
@@ -587,7 +724,7 @@ def replay(label, witness):
             return ("C04/node-missing", "no %s node for marker %s in %r" % (kind, marker, text))
         n = cands[idx]
         line = n.get("line") if kind.startswith("warning") else n.line
-        if line != S + 1 + rel:
+        if line != S + 1 + rel and not (extra == "or-previous-line" and line == S + rel):
             sig = "C04/merged-first-line" if extra in ("merged-first-line", "in-merged") else "C04/substitution-off-by-one" if (extra == "substitution" and line == S + 2 + rel) else "C04/line:%s" % kind.split(":")[0]
             res = (sig, "text %r rendered at offset %d: %s %s starts on line %d but is reported at line %r" % (text, S, kind, marker, S + 1 + rel, line))
             if sig not in ("C04/merged-first-line", "C04/substitution-off-by-one"):
